@@ -185,6 +185,9 @@ theorem eval_wf (s : Store) (hs : StoreWF s) (op : Op) : ValWF (eval s op) := by
     exact with1_wf hs fun a ha => ofRes_map_wf ofNatArr_wf fun r h => argsort_wf _ 0 a axis kind ha h
   | unique a axis => exact with1_wf hs fun a ha => ofRes_wf fun r h => unique_wf _ 0 a axis ha h
   | unary a => exact with1_wf hs fun a ha => ofRes_wf fun r h => iter_unary_wf _ a ha h
+  | logE a => exact with1_wf hs fun a ha => ofRes_wf fun r h => binPat_wf .B a _ ha (single_wf _) h
+  | rint a => exact with1_wf hs fun a ha => ofRes_wf fun r h => roundLike_wf a _ ha (single_wf _) h
+  | round a d => exact with2_wf hs fun a d ha hd => ofRes_wf fun r h => roundLike_wf a d ha hd h
   | binary p a b => exact with2_wf hs fun a b ha hb => ofRes_wf fun r h => binPat_wf p a b ha hb h
   | clip a lo hi =>
     exact with3_wf hs fun a lo hi ha hlo hhi => ofRes_wf fun r h => c04_clipLike_wf _ a lo hi ha hlo hhi h
@@ -198,10 +201,10 @@ theorem eval_wf (s : Store) (hs : StoreWF s) (op : Op) : ValWF (eval s op) := by
     · rename_i r hr
       exact ofRes_wf fun r' h => c14_dot_wf a b ha hb (by rw [hr, h])
     · trivial
-  | unpackBits a axis count little =>
+  | unpackBits a axis count order =>
     exact with1_wf hs fun a ha => ofRes_map_wf ofNatArr_wf fun r h =>
       c19_unpackBits_pipe_wf _ axis count _ (toNatArr_wf ha) h
-  | packBits a axis little =>
+  | packBits a axis order =>
     exact with1_wf hs fun a ha => ofRes_map_wf ofNatArr_wf fun r h =>
       c19_packBits_pipe_wf _ axis _ (toNatArr_wf ha) h
   | operator k a b => exact with2_wf hs fun a b ha hb => ofRes_wf fun r h => opKind_wf k a b ha hb h
